@@ -19,6 +19,7 @@
 import Gama.Lemmas.FullState
 import Gama.Lemmas.AdjState
 import Gama.Lemmas.NetState
+import Gama.Lemmas.NetStateSolver
 import Gama.Lemmas.FullHist
 import Gama.Lemmas.AdjHist
 import Gama.Lemmas.AdjBuf
@@ -502,5 +503,50 @@ example :
     s2.2 = .throw ∧ s2.1.f3 = false
     ∧ (nstep { throws := true } s2.1 (.call resid)).2 = .throw
     ∧ nfresh { throws := true } s2.1.cfg (.call resid) = .throw := by decide
+
+/-! ### the solver object and its regularisation list (round 4; seeded/C04-seed4)
+
+`set_algorithm()` creates a NEW solver object (default: regularise over ALL unknowns) and `update(Points)`;
+`project_equations()` hands the list of the current numbering (`min_x_`: the constrained coordinates of a free
+network) to the solver on every run.  `MState` keeps which list the CURRENT solver object holds, and the adjustment
+artefacts carry (ghost) the list held by the solver that produced them. -/
+
+/-- **The solver that produced what is read held the list of the current numbering.**  After ANY history of
+    configuration changes, `update_*`, member calls and `set_algorithm` (no solver exception), a member that reads
+    the adjustment artefacts (unknowns, residuals, [pvv], cofactors …) reads artefacts produced by a solver object that
+    had been given `min_x(min_n_, min_x_)` with the list computed from the CURRENT configuration
+    (`curList = .given (lst (snap cfg 2))`) — never a solver left at its default (all unknowns) by `set_algorithm`,
+    never a list of an earlier numbering.  Invariant (`MInv`): while `tst_rov_opr_` the current solver holds the current
+    list; while `tst_vyrovnani_` the adjustment was produced under it. -/
+theorem net_solver_holds_current_minx (inp : MInput) (hthr : inp.net.throws = false) (c0 : Cfg) (ops : List MOp)
+    (hops : ∀ o ∈ ops, o.Ok) (mem : Gen.Member) (hm : mem.WF) (hr : mem.reads.contains 3 = true) :
+    let m := mrun inp (minit c0) ops
+    MInv inp m ∧ (mstep inp m (.net (.call mem))).2.2 = some (curList inp m.net) :=
+  ⟨mrun_inv inp hthr (minv_init inp c0) hops,
+   mstep_reads inp hthr (mrun_inv inp hthr (minv_init inp c0) hops) (.call mem) hm hr⟩
+
+/-- non-vacuity + **the hand-over on every run is needed (witness: seeded/C04-seed4).**  `residuals()` is a covered
+    member reading the adjustment; the list does not depend on the algorithm (`lst` constant 7).  History: adjust,
+    `set_algorithm`, ask again.  The code hands the list to the new solver object (`.given 7`); the variant that hands
+    it over only when it differs from the previous run's (`handOnChange`) finds it unchanged, and the residuals — and
+    with them coordinates, standard deviations, ellipses — come from a solver regularising over ALL unknowns
+    (`.dflt`), which is not what a fresh network does (`.given 7`).  Without `set_algorithm` the variant is fine. -/
+example :
+    let resid := memberD "residuals"
+    let inp : MInput := { net := { throws := false }, lst := fun _ => 7 }
+    let ops := [MOp.net (.call resid), .setAlgorithm]
+    resid.WF ∧ resid.reads.contains 3 = true ∧ (∀ o ∈ ops, o.Ok)
+    ∧ (mstep inp (mrun inp (minit ⟨0, 0, 0, 0⟩) ops) (.net (.call resid))).2.2 = some (.given 7)
+    ∧ (mstepWith handOnChange inp (mrunWith handOnChange inp (minit ⟨0, 0, 0, 0⟩) ops) (.net (.call resid))).2.2
+        = some .dflt
+    ∧ (mstep inp (minit ⟨0, 0, 0, 0⟩) (.net (.call resid))).2.2 = some (.given 7)
+    ∧ (mstepWith handOnChange inp (mrunWith handOnChange inp (minit ⟨0, 0, 0, 0⟩) [.net (.call resid), .net (.change 2)])
+        (.net (.call resid))).2.2 = some (.given 7) := by
+  refine ⟨Gen.Member.wf_of_wfb (by decide), by decide, ?_, by decide, by decide, by decide, by decide⟩
+  intro o ho
+  simp only [List.mem_cons, List.mem_nil_iff, or_false] at ho
+  rcases ho with rfl | rfl
+  · exact Gen.Member.wf_of_wfb (by decide)
+  · trivial
 
 end Gama.Props.C04
